@@ -48,11 +48,17 @@ func genBytes(rt *rapid.T, label string) []byte {
 }
 
 func genUint64(rt *rapid.T, label string) uint64 {
-	switch rapid.IntRange(0, 3).Draw(rt, label+"Class") {
+	switch rapid.IntRange(0, 4).Draw(rt, label+"Class") {
 	case 0:
-		return rapid.SampledFrom([]uint64{0, 1, 2, 9, 10, 35, 36, 255, 256, 1<<31 - 1, 1 << 31, 1<<32 - 1, 1 << 32, 1<<63 - 1, 1 << 63, 1<<64 - 1}).Draw(rt, label)
+		return rapid.SampledFrom([]uint64{0, 1, 2, 9, 10, 35, 36, 255, 256, 1<<31 - 1, 1 << 31, 1<<32 - 1, 1 << 32, 1<<63 - 1, 1 << 63, 1<<63 + 1, 1<<64 - 256, 1<<64 - 2, 1<<64 - 1}).Draw(rt, label)
 	case 1:
 		return uint64(rapid.IntRange(0, 1000).Draw(rt, label))
+	case 2:
+		// top bit set: values from 2^63 (as int64: negative numbers, small and large)
+		if rapid.Bool().Draw(rt, label+"NearTop") {
+			return ^uint64(rapid.IntRange(0, 70000).Draw(rt, label))
+		}
+		return rapid.Uint64().Draw(rt, label) | 1<<63
 	}
 	bits := rapid.IntRange(1, 64).Draw(rt, label+"Bits")
 	v := rapid.Uint64().Draw(rt, label)
